@@ -44,6 +44,36 @@ func checkParallelProtocol(c *an.Ctx, id string, d *delFns) {
 		return
 	}
 	wt, wf := c.T(worker), c.F(worker)
+	// the per-worker result record: a struct with one error field (the worker's outcome) and one
+	// uint64 field (the last height it handled); the rule goes by these types, not by the field names
+	errF, heightF := "err", "height"
+	an.Instrs(par, func(in ssa.Instruction) {
+		ms, ok := in.(*ssa.MakeSlice)
+		if !ok {
+			return
+		}
+		sl, isSl := ms.Type().Underlying().(*types.Slice)
+		if !isSl {
+			return
+		}
+		st, isSt := sl.Elem().Underlying().(*types.Struct)
+		if !isSt {
+			return
+		}
+		var es, hs []string
+		for i := 0; i < st.NumFields(); i++ {
+			f := st.Field(i)
+			if an.IsErrorType(f.Type()) {
+				es = append(es, f.Name())
+			}
+			if b, isB := f.Type().Underlying().(*types.Basic); isB && b.Kind() == types.Uint64 {
+				hs = append(hs, f.Name())
+			}
+		}
+		if len(es) == 1 && len(hs) == 1 {
+			errF, heightF = es[0], hs[0]
+		}
+	})
 
 	// (1) errCh closed only on a failed worker
 	nClose := 0
@@ -76,7 +106,7 @@ func checkParallelProtocol(c *an.Ctx, id string, d *delFns) {
 			nClose++
 			okErr := false
 			for _, f := range ffn.AtInstr(call) {
-				if f.Op == "EQ" && !f.Pos && (f.A == "nil" || f.B == "nil") && strings.Contains(f.A+f.B, ".err") {
+				if f.Op == "EQ" && !f.Pos && (f.A == "nil" || f.B == "nil") && strings.Contains(f.A+f.B, "."+errF) {
 					okErr = true
 				}
 			}
@@ -120,7 +150,7 @@ func checkParallelProtocol(c *an.Ctx, id string, d *delFns) {
 				if f == isMissing {
 					return true
 				}
-				if f.Op == "EQ" && f.Pos && (f.A == "nil" || f.B == "nil") && (strings.Contains(f.A+f.B, ".err") || strings.Contains(f.A+f.B, stepErr)) {
+				if f.Op == "EQ" && f.Pos && (f.A == "nil" || f.B == "nil") && (strings.Contains(f.A+f.B, "."+errF) || strings.Contains(f.A+f.B, stepErr)) {
 					return true
 				}
 			}
@@ -152,7 +182,7 @@ func checkParallelProtocol(c *an.Ctx, id string, d *delFns) {
 		// sequential driver, which simply drops it
 		isErrField := func(addr ssa.Value) bool {
 			fa, ok := addr.(*ssa.FieldAddr)
-			return ok && isFieldOf(fa, nil, "err")
+			return ok && isFieldOf(fa, nil, errF)
 		}
 		for _, b := range worker.Blocks {
 			for i, in := range b.Instrs {
@@ -178,7 +208,7 @@ func checkParallelProtocol(c *an.Ctx, id string, d *delFns) {
 					for _, s := range bb.Succs {
 						nilEdge := false
 						for _, f := range wf.EdgeFacts(bb, s) {
-							if !wf.At(bb).Has(f) && f.Op == "EQ" && f.Pos && (f.A == "nil" || f.B == "nil") && (strings.Contains(f.A+f.B, ".err") || strings.Contains(f.A+f.B, stepErr)) {
+							if !wf.At(bb).Has(f) && f.Op == "EQ" && f.Pos && (f.A == "nil" || f.B == "nil") && (strings.Contains(f.A+f.B, "."+errF) || strings.Contains(f.A+f.B, stepErr)) {
 								nilEdge = true
 							}
 						}
@@ -260,7 +290,7 @@ func checkParallelProtocol(c *an.Ctx, id string, d *delFns) {
 		}
 		if st, ok := l.Elems[0].Type().Underlying().(*types.Struct); ok {
 			for i := 0; i < st.NumFields(); i++ {
-				if st.Field(i).Name() == "err" {
+				if st.Field(i).Name() == errF {
 					loop = l
 				}
 			}
@@ -278,11 +308,11 @@ func checkParallelProtocol(c *an.Ctx, id string, d *delFns) {
 		case fs.Has(loop.InLoop):
 			okE := false
 			for _, f := range fs {
-				if f.Op == "EQ" && !f.Pos && (f.A == "nil" || f.B == "nil") && strings.Contains(f.A+f.B, ".err") {
+				if f.Op == "EQ" && !f.Pos && (f.A == "nil" || f.B == "nil") && strings.Contains(f.A+f.B, "."+errF) {
 					okE = true
 				}
 			}
-			c.Check(okE && strings.Contains(t.Of(errResult(r)), ".err"), id, "first-failed-result-returned", "a failed worker result ends the evaluation with that result's error (and height)", par, r, "", fs)
+			c.Check(okE && strings.Contains(t.Of(errResult(r)), "."+errF), id, "first-failed-result-returned", "a failed worker result ends the evaluation with that result's error (and height)", par, r, "", fs)
 		}
 	}
 	for _, pred := range loop.Header.Preds {
@@ -291,7 +321,7 @@ func checkParallelProtocol(c *an.Ctx, id string, d *delFns) {
 		}
 		okB := false
 		for _, f := range ff.EdgeFacts(pred, loop.Header) {
-			if f.Op == "EQ" && f.Pos && (f.A == "nil" || f.B == "nil") && strings.Contains(f.A+f.B, ".err") {
+			if f.Op == "EQ" && f.Pos && (f.A == "nil" || f.B == "nil") && strings.Contains(f.A+f.B, "."+errF) {
 				okB = true
 			}
 		}
@@ -311,7 +341,7 @@ func checkParallelProtocol(c *an.Ctx, id string, d *delFns) {
 	if c.Check(hi != nil, id, "progress-accumulator", "the evaluation carries the highest height reached", par, nil, "", nil) {
 		elemH := ""
 		an.Instrs(par, func(in ssa.Instruction) {
-			if fa, ok := in.(*ssa.FieldAddr); ok && fieldName(fa) == "height" && ff.Dominates(loop.Header, fa.Block()) {
+			if fa, ok := in.(*ssa.FieldAddr); ok && fieldName(fa) == heightF && ff.Dominates(loop.Header, fa.Block()) {
 				if ld := firstLoad(fa); ld != nil {
 					elemH = t.Of(ld)
 				}
@@ -347,7 +377,7 @@ func checkParallelProtocol(c *an.Ctx, id string, d *delFns) {
 		c.Check(okMax, id, "progress-is-max", "the progress carried on is at least the previous maximum and at least the current result's height (the maximum over all workers)", par, hi, "element height "+an.Stable(elemH), nil)
 		for _, r := range ff.Returns() {
 			if t.ErrShape(errResult(r)) == "nil" {
-				dlt := t.Affine(r.Results[0]).Sub(t.Affine(hi))
+				dlt := t.Affine(ff.Unphi(r.Results[0])).Sub(t.Affine(hi))
 				c.Check(dlt.String() == "1", id, "success-reports-max-plus-one", "on success the driver reports the height after the highest one deleted", par, r, "reports "+an.Stable(t.Of(r.Results[0])), nil)
 			}
 		}
